@@ -58,6 +58,14 @@ World* makeWorld(const std::string& property);
 // through this; it does not return.
 [[noreturn]] void fatal_result(const RunResult& r);
 
+// While an object of this type lives, fds 1 and 2 go to /dev/null (llbuild's own console output);
+// sanitizer reports and fatal results restore them first.
+struct Silence {
+  Silence();
+  ~Silence();
+};
+void unsilence();
+
 int main_entry(int argc, char** argv);
 
 } // namespace runner
